@@ -114,6 +114,8 @@ def _check_evaluation(case):
     require(_close(me.mean_predictions, [sum(P[e]) / T for e in range(E)]), "mean_predictions", "mean_predictions is not the average over posterior samples")
     p = tmp.fresh("me.h5")
     try:
+        # the path already holds another evaluation of the same shape (a re-run): saving replaces it
+        ModelEvaluation(predictions=P[::-1].copy() + 1.0, observations=y[::-1].copy() - 1.0, chain_ids=ch[::-1].copy(), sample_names=nm[::-1].copy()).save_h5(p)
         me.save_h5(p)
         me2 = ModelEvaluation.load_h5(p)
     finally:
